@@ -20,7 +20,7 @@ class Std(Scenario):
         self.kw = kw
         g = kw.get
         self.cfg = dict(profile=g('profile', 'pubsub'), mode=g('mode', 'sync'), naddr=g('naddr', 1))
-        for k in ('id0', 'split', 'ondisc', 'onpub', 'onmade', 'reenter', 'reenter_max'):
+        for k in ('id0', 'split', 'ondisc', 'onpub', 'onmade', 'reenter', 'reenter_max', 'cb_deferred'):
             if k in kw:
                 self.cfg[k] = kw[k]
         self.init = tuple(g('init', ()))
@@ -35,6 +35,7 @@ class Std(Scenario):
         self.unsub_shapes = g('unsub_shapes', ('str',))
         self.windows = g('windows', ())
         self.lose_kinds = g('lose_kinds', ('done',))
+        self.lose_new = g('lose_new', False)     # the transport may be lost before connect() was ever called on the protocol
         self.suback_codes = g('suback_codes', ((1,),))
         self.inpubs = g('inpubs', ())
         self.inrels = g('inrels', ())
@@ -114,7 +115,7 @@ class Std(Scenario):
                 continue
             if c.pending_loss is not None:
                 out.append(('lossdeliver', a))
-            if left('lose') > 0 and c.phase != 'new':
+            if left('lose') > 0 and (c.phase != 'new' or self.lose_new):
                 for k in self.lose_kinds:
                     out.append(('lose', a, k))
             first = not any(x.addr == a and x.n_connects for x in w.conns)
